@@ -247,7 +247,7 @@ func (f *function) evaluate() (data string, changed bool, err error) {
 
 	var buf bytes.Buffer
 	b64 := base64.NewEncoder(base64.StdEncoding, &buf)
-	if err := pickle.NewEncoder(b64, pickle.PicklerFunc(envPickler)).Encode(f.function); err != nil {
+	if err := pickle.NewEncoder(b64, newEnvPickler()).Encode(f.function); err != nil {
 		return "", false, err
 	}
 	b64.Close()
@@ -291,10 +291,34 @@ func (f *function) load() error {
 // pickler.
 func functionEnv(f starlark.Callable) (starlark.Value, error) {
 	var buf bytes.Buffer
-	if err := pickle.NewEncoder(&buf, pickle.PicklerFunc(envPickler)).Encode(f); err != nil {
+	if err := pickle.NewEncoder(&buf, newEnvPickler()).Encode(f); err != nil {
 		return nil, err
 	}
 	return pickle.NewDecoder(&buf, pickle.UnpicklerFunc(envUnpickler)).Decode()
+}
+
+// A recursionPickler pickles function environments with envPickler, and pickles a reference to a function from
+// within that function's own environment--i.e. a recursive or mutually recursive reference--as
+// (NEWOBJ "dawn" "Recursive" (name,)).
+//
+// The encoder memoizes a value once it has been pickled and does not ask the pickler about it again, so a second
+// request for the same function can only come from within the function's own environment.
+type recursionPickler struct {
+	seen map[*starlark.Function]struct{}
+}
+
+func newEnvPickler() pickle.Pickler {
+	return &recursionPickler{seen: map[*starlark.Function]struct{}{}}
+}
+
+func (p *recursionPickler) Pickle(x starlark.Value) (module, name string, args starlark.Tuple, err error) {
+	if fn, ok := x.(*starlark.Function); ok {
+		if _, ok := p.seen[fn]; ok {
+			return "dawn", "Recursive", starlark.Tuple{starlark.String(fn.Name())}, nil
+		}
+		p.seen[fn] = struct{}{}
+	}
+	return envPickler(x)
 }
 
 // envPickler provides support for pickling functions and modules.
@@ -337,6 +361,11 @@ func envUnpickler(module, name string, args starlark.Tuple) (starlark.Value, err
 			return nil, fmt.Errorf("expcted 1 arg, got %v", len(args))
 		}
 		return args[0], nil
+	case "Recursive":
+		if len(args) != 1 {
+			return nil, fmt.Errorf("expcted 1 arg, got %v", len(args))
+		}
+		return starlark.Tuple{starlark.String("recursive function"), args[0]}, nil
 	case "Builtin":
 		if len(args) != 0 {
 			return nil, fmt.Errorf("expected 0 args, got %v", len(args))
